@@ -1,18 +1,31 @@
 #!/usr/bin/env python3
-"""lib/seedrecheck.py <name> <pkgs...> -- <checks...> : re-run seedcheck on an archived seed (/verif/seeded/<name>) and
-refresh meta.json's detected_by (used after a check was strengthened)."""
-import json, os, subprocess, sys
-name = sys.argv[1]
+"""lib/seedrecheck.py <name> <checks...> : re-run the named checks against an archived, already confirmed seed
+(/verif/seeded/<name>/patch.diff applied to a scratch copy of /repo) and refresh meta.json's detected_by
+(used after a check was strengthened; the first result is kept under first_run_before_strengthening)."""
+import json, os, shutil, subprocess, sys, tempfile, hashlib
+name, checks = sys.argv[1], sys.argv[2:]
 d = os.path.join("/verif/seeded", name)
-out = subprocess.run([sys.executable, os.path.join(os.path.dirname(__file__), "seedcheck.py"), d] + sys.argv[2:], stdout=subprocess.PIPE, text=True).stdout
-res = json.loads(out)
-ok = res.get("patch_applies") and res.get("builds") and res.get("baseline_ok") and res.get("demo_confirms")
-print(name, "CONFIRMED" if ok else "NOT CONFIRMED", {k: v["exit"] for k, v in res.get("checks", {}).items()})
-if ok:
-    mp = os.path.join(d, "meta.json")
-    meta = json.load(open(mp))
-    prev = meta.get("detected_by", {})
-    if any(v.get("exit") == 0 for v in prev.values()) and "first_run_before_strengthening" not in meta:
-        meta["first_run_before_strengthening"] = {k: v.get("exit") for k, v in prev.items()}
-    meta["detected_by"] = {k: {"exit": v["exit"], "verdict_lines": v["lines"]} for k, v in res.get("checks", {}).items()}
-    json.dump(meta, open(mp, "w"), indent=1)
+env = dict(os.environ, GOFLAGS="-mod=mod", GOPROXY="off", GOSUMDB="off", GOTOOLCHAIN="local")
+mut = tempfile.mkdtemp(prefix="seedre_")
+subprocess.run("cp -r /repo/. %s/" % mut, shell=True, check=True)
+res = {}
+try:
+    subprocess.run("git apply %s" % os.path.join(d, "patch.diff"), shell=True, cwd=mut, check=True)
+    for cid in checks:
+        p = subprocess.run("./check %s" % cid, shell=True, cwd="/verif", env=dict(env, VERIF_REPO_DIR=mut),
+                           stdout=subprocess.PIPE, stderr=subprocess.STDOUT, text=True, timeout=1800)
+        lines = [l for l in p.stdout.splitlines() if l.startswith(("VIOLATION", "KNOWN-FINDING")) or " ok " in l or " FAIL " in l]
+        res[cid] = {"exit": p.returncode, "verdict_lines": lines[:6]}
+finally:
+    shutil.rmtree(mut, ignore_errors=True)
+    h = hashlib.sha1(mut.encode()).hexdigest()[:10]
+    subprocess.run("rm -rf /tmp/verif_harness_%s /tmp/verif_work_%s /tmp/verif_coq_%s" % (h, h, h), shell=True)
+mp = os.path.join(d, "meta.json")
+meta = json.load(open(mp))
+prev = meta.get("detected_by", {})
+if "first_run_before_strengthening" not in meta and any(prev.get(k, {}).get("exit") == 0 and v["exit"] != 0 for k, v in res.items()):
+    meta["first_run_before_strengthening"] = {k: v.get("exit") for k, v in prev.items()}
+prev.update(res)
+meta["detected_by"] = {k: v for k, v in prev.items() if k.startswith("C")}
+json.dump(meta, open(mp, "w"), indent=1)
+print(name, {k: v["exit"] for k, v in res.items()})
